@@ -229,7 +229,13 @@ impl Linker {
         // changed. We want inputs-changed errors to take precedence over all other errors.
         let result = self.load_inputs_and_link::<P, A>(&mut file_loader, args);
 
-        file_loader.verify_inputs_unchanged()?;
+        if let Err(error) = file_loader.verify_inputs_unchanged() {
+            if result.is_ok() {
+                // We wrote the output, but from inputs that changed underneath us.
+                file_writer::remove_failed_output(args.output());
+            }
+            return Err(error);
+        }
 
         #[cfg(wild_verif)]
         crate::verif::fault_point("verified")?;
@@ -243,7 +249,8 @@ impl Linker {
                             "Failed to write dependency file `{}`",
                             dep_file_path.display()
                         )
-                    })?;
+                    })
+                    .inspect_err(|_| file_writer::remove_failed_output(args.output()))?;
             }
             if args.should_write_trace_file() {
                 let mut buf = BufWriter::new(std::io::stdout());
@@ -364,6 +371,8 @@ impl Linker {
         crate::verif::fault_point("written")?;
 
         diff::maybe_diff()?;
+
+        output.mark_completed();
 
         // We've finished linking. We consider everything from this point onwards as shutdown.
         let (g1, g2) = timing_guard!("Shutdown");
